@@ -20,7 +20,7 @@ deriving Repr, DecidableEq
 def runAction (self : Aid) (w : World) : Action → World
   | .rmSelf => removeAgent w self
   | .rm b => removeAgent w b
-  | .create m ty n hold => createN w m ty hold (List.replicate n 0)
+  | .create m ty n hold => createN w m ty hold (List.replicate n [.int 0])
   | .unhold b => unhold w b
 
 /-- the callback of agent `a` with argument `arg`: logged, then its script runs -/
@@ -89,8 +89,9 @@ def groupMap (script : Aid → List Action) (arg : Nat) (ret : Aid → Nat → N
 
 inductive Op where
   | newModel (g : Rng)
-  | create (m : Nat) (ty : Ty) (hold : Bool) (x : Int)
-  | createN (m : Nat) (ty : Ty) (hold : Bool) (xs : List Int)
+  | create (m : Nat) (ty : Ty) (hold : Bool) (x : Payload)
+  | createN (m : Nat) (ty : Ty) (hold : Bool) (xs : List Payload)
+  | createAgents (m : Nat) (ty : Ty) (hold : Bool) (n : Nat) (args : List Arg)
   | remove (a : Aid)
   | removeAll (m : Nat)
   | unhold (a : Aid)
@@ -107,6 +108,7 @@ def step (w : World) : Op → World
   | .newModel g => newModel w g
   | .create m ty hold x => createAgent w m ty hold x
   | .createN m ty hold xs => createN w m ty hold xs
+  | .createAgents m ty hold n args => createAgents w m ty hold n args
   | .remove a => removeAgent w a
   | .removeAll m => removeAll w m
   | .unhold a => unhold w a
